@@ -288,8 +288,48 @@ var altsCancel = []stepAlt{
 	{"nodeploy", env.StepScript{Deploy: env.DeployFail}},
 }
 
+// expressions with several references, one of which is already connected by another field
+func ss(step string) string { return "$.steps." + step + ".outputs.success.s" }
+
+func progSumExpr() *Program {
+	return &Program{Name: "sumexpr", Steps: []Step{
+		pstep("a", O("v", E("$.input.n"))),
+		pstep("b", O("v", I(10))),
+		{ID: "c", Input: O("v", E(sv("a"))), WaitFor: E(ss("a") + " + " + ss("b"))},
+	}, Outputs: []Output{{"success", O("r", E(sv("c")))}}}
+}
+
+func progSumExpr2() *Program {
+	return &Program{Name: "sumexpr2", Steps: []Step{
+		pstep("a", O("v", E("$.input.n"))),
+		pstep("b", O("v", I(10))),
+		{ID: "c", Input: O("v", I(3), "s", E(ss("a")+" + "+ss("b"))), WaitFor: E("$.steps.a.outputs.success")},
+	}, Outputs: []Output{{"success", O("r", E(sv("c")), "q", E(ss("a")+" + "+ss("c")))}}}
+}
+
+// integer arithmetic on values produced by plugins
+func progSumInts() *Program {
+	return &Program{Name: "sumints", Steps: []Step{
+		pstep("a", O("v", E("$.input.n"))),
+		pstep("b", O("v", E(sv("a")+" + 1"))),
+	}, Outputs: []Output{{"success", O("r", E(sv("b")))}}}
+}
+
+// stop condition and enable condition driven by two different producers
+func progStopEnable() *Program {
+	return &Program{Name: "stopenable", Steps: []Step{
+		pstep("p", O("v", E("$.input.n"))),
+		pstep("q", O("v", I(2))),
+		{ID: "a", Input: O("v", I(1)), StopIf: E("$.steps.p.outputs.success"), Enabled: E("$.steps.q.enabling.resolved.enabled")},
+	}, Outputs: []Output{
+		{"success", O("r", E(sv("a")))},
+		{"closed", O("c", E("$.steps.a.closed.result.cancelled"))},
+	}}
+}
+
 func catalogue() []*Program {
 	return []*Program{
+		progSumExpr(), progSumExpr2(), progSumInts(), progStopEnable(),
 		progSingle(), progChain(2), progChain(3), progFanIn(), progDiamond(), progMultiOut(), progMultiOut2(),
 		progWaitStarted(), progEnabled(), progEnabledChain(), progStopInput(), progStopProducer(), progDeployExpr(),
 		progOptional(), progSoftOptional(), progOptionalInput(), progOneOf(), progOneOf2(),
